@@ -9,11 +9,15 @@
    5. finite tables            regenerated currency / alias / rate tables: lookups in any letter
                                case, aliases, rates finite and non-zero, all ordered pairs
    6. literals                 Lexer.money_body and every spelling over the currency table
-   7. examples                 non-vacuity at binary64 *)
+   7. examples                 non-vacuity at binary64
+   8. money regexes            for ALL digit strings: the five regexes of parse.money on `digits blanks word`
+                               (one match of regex 2, none of the others) and the token the parser adds;
+                               the same for `symbol digits` with the currency-symbol aliases (regex 1) *)
 From Coq Require Import QArith Qcanon Floats.
-From SC.Model Require Import Base Num NumF64 NumQ Types Config Case Chrono Parser RuleFns Items UiTokens Rx Rules Lexer Api Run64 Corr.
+From SC.Model Require Import Base Num NumF64 NumQ Types Config Case Chrono Parser RuleFns Items UiTokens Regex Rx Rules Lexer Api Run64 Corr.
 From SC.Spec Require Import Money.
-From SC.Gen Require Import RustConsts ConfigData.
+From SC.Gen Require Import RustConsts ConfigData Regexes.
+From SC.Proofs Require Import RegexLemmas RegexNeeds.
 
 (* 1. association lists *)
 Lemma str_eqb_neq a b : a <> b -> str_eqb a b = false.
@@ -938,3 +942,688 @@ Theorem literal_limits :
   (* a currency code that is also a time-zone abbreviation, after a suffixed amount *)
   ev (s "25k tmt") = None /\ ev (s "25 tmt") = Some (TMoney 25%float (s "TMT")).
 Proof. vm_compute. repeat split; reflexivity. Qed.
+
+(* ------------------------------------------------------------------------------------- *)
+(* 8. the money regexes on ALL digit strings: `digits blanks word` lexes as one money token *)
+(*    (positive runs and the no-match analysis of Proofs/RegexNeeds.v)                     *)
+(* ------------------------------------------------------------------------------------- *)
+Section MoneyRx.
+Local Open Scope N_scope.
+
+Definition notf := set_mem PT false [CRange 107 107; CRange 75 75; CRange 77 77; CRange 71 71; CRange 84 84;
+                                     CRange 80 80; CRange 90 90; CRange 89 89].
+Definition curf := set_mem PT false [CCurrency].
+Definition letter (c : N) : bool := (97 <=? c) && (c <=? 122) || (65 <=? c) && (c <=? 90).
+
+(* the PRICE group shared by the five money regexes *)
+Definition MPR : matcher :=
+  m_cat (m_rep (m_set signf) 0 (Some 1%nat) true)
+        (m_cat (m_rep (m_set digf) 1 None true) (m_rep (m_set dsepf) 0 None true)).
+Definition M1 : matcher :=
+  m_cat (m_group 1 (m_set curf)) (m_cat (m_group 2 MPR) (m_group 3 (m_rep (m_set notf) 0 (Some 1%nat) true))).
+Definition M2 : matcher :=
+  m_cat (m_group 1 MPR) (m_cat (m_rep (m_set spf) 0 None true) (m_group 2 (m_rep (m_set letf) 2 None true))).
+Definition M3 : matcher :=
+  m_cat (m_group 1 MPR) (m_cat (m_rep (m_set spf) 0 None true) (m_group 2 (m_set curf))).
+Definition M4 : matcher :=
+  m_cat (m_group 1 MPR) (m_cat (m_group 2 (m_set notf))
+        (m_cat (m_rep (m_set spf) 1 None true) (m_group 3 (m_rep (m_set letf) 2 None true)))).
+Definition M5 : matcher :=
+  m_cat (m_group 1 MPR) (m_cat (m_group 2 (m_set notf))
+        (m_cat (m_rep (m_set spf) 1 None true) (m_group 3 (m_set curf)))).
+
+Definition MONEY : list cre := cres_of "money".
+Definition R1 : cre := nth 0 MONEY dummy_cre.
+Definition R2 : cre := nth 1 MONEY dummy_cre.
+Definition R3 : cre := nth 2 MONEY dummy_cre.
+Definition R4 : cre := nth 3 MONEY dummy_cre.
+Definition R5 : cre := nth 4 MONEY dummy_cre.
+
+Lemma MONEY_split : MONEY = [R1; R2; R3; R4; R5]. Proof. reflexivity. Qed.
+Lemma R1_matcher : compile PT (cre_rx R1) = M1. Proof. reflexivity. Qed.
+Lemma R2_matcher : compile PT (cre_rx R2) = M2. Proof. reflexivity. Qed.
+Lemma R3_matcher : compile PT (cre_rx R3) = M3. Proof. reflexivity. Qed.
+Lemma R4_matcher : compile PT (cre_rx R4) = M4. Proof. reflexivity. Qed.
+Lemma R5_matcher : compile PT (cre_rx R5) = M5. Proof. reflexivity. Qed.
+Lemma R_names :
+  cre_names R1 = [(s "CURRENCY", 1%nat); (s "NOTATION", 3%nat); (s "PRICE", 2%nat)] /\
+  cre_names R2 = [(s "CURRENCY", 2%nat); (s "PRICE", 1%nat)] /\
+  cre_n R1 = 3%nat /\ cre_n R2 = 2%nat.
+Proof. repeat split; reflexivity. Qed.
+
+Lemma advst_eq xs tail pos prev rem caps : forallb ascii xs = true ->
+  advst tail pos prev rem caps xs = MS tail (pos + N.of_nat (length xs)) (lastp xs prev) (rem - length xs)%nat caps.
+Proof.
+  intros Ha. destruct (advst_fields xs tail pos prev rem caps Ha) as (A & B & C & D).
+  pose proof (advst_prev xs tail pos prev rem caps) as E.
+  destruct (advst tail pos prev rem caps xs) as [r0 p0 pv0 rm0 c0]. cbn in *. subst. reflexivity.
+Qed.
+
+Lemma digits_table : forallb (fun c => negb (notf c) && negb (letf c) && negb (curf c)) (range_list 48 57) = true.
+Proof. vm_compute. reflexivity. Qed.
+
+Lemma digit_more c : digit c = true -> notf c = false /\ letf c = false /\ curf c = false.
+Proof.
+  intros H. unfold digit in H. apply andb_true_iff in H as [H1 H2]. apply N.leb_le in H1. apply N.leb_le in H2.
+  pose proof (proj1 (forallb_forall _ _) digits_table c (range_list_In 48 57 c H1 H2)) as T.
+  apply andb_true_iff in T as [T T3]. apply andb_true_iff in T as [T1 T2].
+  apply negb_true_iff in T1. apply negb_true_iff in T2. apply negb_true_iff in T3. repeat split; assumption.
+Qed.
+
+Lemma letter_facts c : letter c = true ->
+  letf c = true /\ signf c = false /\ digf c = false /\ dsepf c = false /\ spf c = false /\ ascii c = true.
+Proof.
+  unfold letter, letf, signf, digf, dsepf, spf, set_mem, ascii. cbn [items_mem cls_mem negb].
+  intros H. apply orb_true_iff in H.
+  assert (H' : (97 <= c /\ c <= 122) \/ (65 <= c /\ c <= 90)).
+  { destruct H as [H|H]; apply andb_true_iff in H as [H1 H2]; apply N.leb_le in H1; apply N.leb_le in H2; lia. }
+  clear H.
+  repeat match goal with
+  | |- context [?a <? ?b] => destruct (N.ltb_spec a b); try lia
+  | |- context [?a <=? ?b] => destruct (N.leb_spec a b); try lia
+  end; repeat split.
+Qed.
+
+Lemma letters_all w : forallb letter w = true -> forallb letf w = true /\ forallb ascii w = true.
+Proof.
+  induction w as [|c w IH]; intros H; [split; reflexivity|]. cbn [forallb] in *. apply andb_true_iff in H as [Hc Hw].
+  destruct (letter_facts c Hc) as (A & _ & _ & _ & _ & B). destruct (IH Hw) as (A' & B'). rewrite A, B, A', B'. split; reflexivity.
+Qed.
+
+(* x* over a non-empty run *)
+Lemma rep0_run f xs tail pos prev rem caps k r :
+  xs <> [] -> forallb f xs = true -> stops f tail -> (length xs <= S (S rem))%nat ->
+  k (advst tail pos prev rem caps xs) = Some r ->
+  m_rep (m_set f) 0 None true (MS (xs ++ tail) pos prev rem caps) k = Some r.
+Proof.
+  intros. unfold m_rep, plus_fuel. cbn [ms_rem]. rewrite (plus_run f xs tail pos prev rem caps _ true k r); auto.
+Qed.
+
+(* x{2,} over a run of at least two *)
+Lemma rep2_run f a xs tail pos prev rem caps k r :
+  f a = true -> xs <> [] -> forallb f xs = true -> stops f tail -> (length xs <= S rem)%nat ->
+  k (advst tail pos prev rem caps (a :: xs)) = Some r ->
+  m_rep (m_set f) 2 None true (MS ((a :: xs) ++ tail) pos prev rem caps) k = Some r.
+Proof.
+  intros Ha Hne Hx Ht Hl Hk. unfold m_rep. cbn [m_exactly]. unfold m_eps. unfold m_set at 1. cbn [app ms_rest]. rewrite Ha.
+  cbn [ms_pos ms_prev ms_rem ms_caps]. unfold plus_fuel. cbn [ms_rem].
+  apply plus_run; try assumption. lia.
+Qed.
+Lemma lastp_app xs ys prev : lastp (xs ++ ys) prev = lastp ys (lastp xs prev).
+Proof. revert prev. induction xs as [|c t IH]; intros prev; cbn [app lastp]; [reflexivity|apply IH]. Qed.
+End MoneyRx.
+
+Section MoneyLine.
+Local Open Scope N_scope.
+Variables (ds w : list N) (k : nat).
+Hypothesis Hne : ds <> [].
+Hypothesis Hd : forallb digit ds = true.
+Hypothesis Hw : forallb letter w = true.
+Hypothesis Hw2 : (2 <= length w)%nat.
+
+Local Notation n := (N.of_nat (length ds)).
+Local Notation pw := (N.of_nat (length ds) + N.of_nat k).
+Local Notation tot := (N.of_nat (length ds) + N.of_nat k + N.of_nat (length w)).
+Local Notation tailL := (blanks k ++ w).
+Local Notation L := (ds ++ blanks k ++ w).
+
+Lemma w_cons : exists a b w', w = a :: b :: w'.
+Proof. destruct w as [|a [|b w']]; cbn [length] in Hw2; try lia. eauto. Qed.
+
+(* the head of what follows the digits: a blank or a letter *)
+Lemma tailL_head : match tailL with [] => False | h :: _ =>
+  signf h = false /\ digf h = false /\ dsepf h = false /\ (h = 32 \/ letter h = true) end.
+Proof.
+  destruct k as [|k']; cbn [blanks repeat app].
+  - destruct w_cons as (a & b & w' & ->). cbn [forallb] in Hw. apply andb_true_iff in Hw as [Ha _].
+    destruct (letter_facts a Ha) as (_ & A & B & C & _). repeat split; auto.
+  - vm_compute. repeat split. left. reflexivity.
+Qed.
+
+Lemma L_ascii : forallb ascii L = true.
+Proof.
+  rewrite !forallb_app. destruct (digits_all ds Hd) as (_ & A & _). rewrite A.
+  unfold blanks. rewrite (forallb_repeat ascii 32 k eq_refl). destruct (letters_all w Hw) as (_ & B). rewrite B. reflexivity.
+Qed.
+
+Lemma L_length : N.of_nat (length L) = tot.
+Proof. rewrite !app_length, blanks_length. lia. Qed.
+
+(* regex 2 (PRICE blanks CURRENCY) at the start of the line: the whole line *)
+Lemma M2_hit prev :
+  M2 (MS L 0 prev (length L) []) k_done
+  = Some (MS [] tot (lastp L prev) 0%nat [(2%nat, (pw, tot)); (1%nat, (0, n))]).
+Proof.
+  destruct (digits_all ds Hd) as (Hdf & Ha & _ & _). destruct (letters_all w Hw) as (Hlf & Hla).
+  pose proof tailL_head as Hth.
+  unfold M2, m_cat. unfold m_group at 1. cbn [ms_pos]. unfold MPR, m_cat.
+  (* optional sign *)
+  assert (Hs : forall kk, m_rep (m_set signf) 0 (Some 1%nat) true (MS L 0 prev (length L) []) kk
+                          = kk (MS L 0 prev (length L) [])).
+  { intros kk. unfold m_rep. cbn [Nat.sub m_exactly m_upto]. unfold m_eps, m_set. cbn [ms_rest]. unfold L.
+    clear - Hne Hd. destruct ds as [|d ds']; [congruence|]. cbn [app]. cbn [forallb] in Hd. apply andb_true_iff in Hd as [Hd0 _].
+    destruct (digit_facts d Hd0) as (_ & S0 & _). rewrite S0. reflexivity. }
+  rewrite Hs.
+  apply rep1_run; try assumption.
+  { destruct tailL as [|h t]; [exact Logic.I|]. exact (proj1 (proj2 Hth)). }
+  { rewrite app_length. lia. }
+  rewrite (advst_eq ds tailL 0 prev (length L) [] Ha). rewrite N.add_0_l.
+  rewrite rep0_none.
+  2:{ destruct tailL as [|h t]; [exact Logic.I|]. exact (proj1 (proj2 (proj2 Hth))). }
+  cbv beta. cbn [ms_rest ms_pos ms_prev ms_rem ms_caps].
+  (* blanks *)
+  assert (Hb : forall kk r, kk (MS w pw (lastp (blanks k) (lastp ds prev)) (length L - length ds - k)%nat [(1%nat, (0, n))]) = Some r ->
+            m_rep (m_set spf) 0 None true (MS tailL n (lastp ds prev) (length L - length ds)%nat [(1%nat, (0, n))]) kk = Some r).
+  { intros kk r Hk. destruct k as [|k'].
+    - cbn [blanks repeat app]. rewrite rep0_none.
+      + cbn [blanks repeat lastp] in Hk. rewrite N.add_0_r, Nat.sub_0_r in Hk. exact Hk.
+      + destruct w_cons as (a & b & w' & ->). cbn [forallb] in Hw. apply andb_true_iff in Hw as [Hwa _].
+        exact (proj1 (proj2 (proj2 (proj2 (proj2 (letter_facts a Hwa)))))).
+    - apply rep0_run.
+      + discriminate.
+      + apply forallb_repeat. reflexivity.
+      + destruct w_cons as (a & b & w' & ->). cbn [forallb] in Hw. apply andb_true_iff in Hw as [Hwa _].
+        exact (proj1 (proj2 (proj2 (proj2 (proj2 (letter_facts a Hwa)))))).
+      + rewrite !app_length, blanks_length. lia.
+      + rewrite advst_eq by (apply forallb_repeat; reflexivity). rewrite blanks_length.
+        replace (length L - length ds - S k')%nat with (length L - length ds - S k')%nat in Hk by reflexivity. exact Hk. }
+  apply Hb. clear Hb.
+  (* the letters *)
+  unfold m_group. cbn [ms_pos].
+  destruct w_cons as (a & b & w' & Ew).
+  assert (Hwa : letf a = true /\ forallb letf (b :: w') = true).
+  { rewrite Ew in Hlf. cbn [forallb] in Hlf. apply andb_true_iff in Hlf. exact Hlf. }
+  replace w with ((a :: b :: w') ++ []) at 1 by (rewrite app_nil_r; symmetry; exact Ew).
+  apply rep2_run; try tauto.
+  { discriminate. }
+  { exact Logic.I. }
+  { rewrite Ew, !app_length, blanks_length. cbn [length]. lia. }
+  rewrite advst_eq by (rewrite <- Ew; exact Hla). cbn [ms_rest ms_pos ms_prev ms_rem ms_caps]. unfold k_done.
+  rewrite <- Ew. f_equal. f_equal.
+  - rewrite !lastp_app. reflexivity.
+  - rewrite !app_length, blanks_length. lia.
+Qed.
+
+Lemma M2_nil pos prev rem caps kk : M2 (MS [] pos prev rem caps) kk = None.
+Proof. reflexivity. Qed.
+
+Theorem caps_R2 : caps_iter R2 L = [[Some (0, tot); Some (0, n); Some (pw, tot)]].
+Proof.
+  unfold caps_iter, captures_iter_p. rewrite R2_matcher. change (cre_n R2) with 2%nat.
+  rewrite (iter_hit M2 2 _ _ _ _ _ _ _ _ (search_hit _ _ _ _ _ _ (M2_hit None))).
+  2:{ cbn [ms_pos]. destruct ds; [congruence|]. cbn [length]. lia. }
+  cbn [ms_rest ms_pos ms_prev ms_rem]. unfold render_caps. cbn [ms_pos ms_caps seq map lookup_cap Nat.eqb].
+  reflexivity.
+Qed.
+End MoneyLine.
+
+(* ---- no match: the states "digits, then a fixed tail" ---- *)
+Section Fails.
+Local Open Scope N_scope.
+Variable tailL : list N.
+
+Definition dtail (st : Regex.mstate) : Prop := exists ds2, forallb digit ds2 = true /\ ms_rest st = ds2 ++ tailL.
+
+Lemma keeps_set_cond (I : Regex.mstate -> Prop) f :
+  (forall c t pos prev rem caps, I (MS (c :: t) pos prev rem caps) -> f c = true ->
+     I (MS t (pos + utf8_width c) (Some c) (Nat.pred rem) caps)) -> keeps I (m_set f).
+Proof.
+  intros Hs st kk res Hi H. unfold m_set in H. destruct st as [rest pos prev rem caps]. cbn in H.
+  destruct rest as [|c t]; [discriminate|]. destruct (f c) eqn:E; [|discriminate].
+  eexists. split; [|exact H]. exact (Hs _ _ _ _ _ _ Hi E).
+Qed.
+
+Lemma mfails_cat (I : Regex.mstate -> Prop) ma mb : keeps I ma -> mfails I mb -> mfails I (m_cat ma mb).
+Proof.
+  intros Ha Hb st kk Hi. unfold m_cat. destruct (ma st (fun st' => mb st' kk)) as [r|] eqn:E; [|reflexivity].
+  destruct (Ha _ _ _ Hi E) as (st1 & Hi1 & H1). rewrite (Hb _ _ Hi1) in H1. discriminate.
+Qed.
+
+Lemma mfails_group (I : Regex.mstate -> Prop) idx mr : mfails I mr -> mfails I (m_group idx mr).
+Proof. intros H st kk Hi. unfold m_group. apply H. exact Hi. Qed.
+
+Lemma dtail_cap idx : cap_closed dtail idx.
+Proof. intros st p0 H. exact H. Qed.
+
+(* a set that contains no digit and not the head of the tail cannot be passed *)
+Lemma dtail_set_fails f : stops f tailL -> (forall d, digit d = true -> f d = false) -> mfails dtail (m_set f).
+Proof.
+  intros Ht Hdg st kk (ds2 & Hd2 & Hr). destruct st as [rest pos prev rem caps]. cbn in Hr. subst rest.
+  unfold m_set. cbn [ms_rest]. destruct ds2 as [|d ds2']; cbn [app].
+  - destruct tailL as [|h t]; [reflexivity|]. cbn in Ht. rewrite Ht. reflexivity.
+  - cbn [forallb] in Hd2. apply andb_true_iff in Hd2 as [Hd0 _]. rewrite (Hdg d Hd0). reflexivity.
+Qed.
+
+(* a set that does not contain the head of the tail keeps the shape *)
+Lemma dtail_set_keeps f : stops f tailL -> keeps dtail (m_set f).
+Proof.
+  intros Ht. apply keeps_set_cond. intros c t pos prev rem caps (ds2 & Hd2 & Hr) Hf. cbn [ms_rest] in Hr.
+  destruct ds2 as [|d ds2']; cbn [app] in Hr.
+  - destruct tailL as [|h t']; [discriminate|]. inversion Hr; subst. cbn in Ht. congruence.
+  - inversion Hr; subst. cbn [forallb] in Hd2. apply andb_true_iff in Hd2 as [_ Hd2]. exists ds2'. split; [exact Hd2|reflexivity].
+Qed.
+
+Definition price_stop : Prop := stops signf tailL /\ stops digf tailL /\ stops dsepf tailL.
+
+Lemma dtail_price idx : price_stop -> keeps dtail (m_group idx MPR).
+Proof.
+  intros (H1 & H2 & H3). apply keeps_group; [apply dtail_cap|]. unfold MPR.
+  apply keeps_cat; [apply keeps_rep, dtail_set_keeps, H1|].
+  apply keeps_cat; apply keeps_rep, dtail_set_keeps; assumption.
+Qed.
+
+Lemma search_dtail mr : mfails dtail mr -> forall ds2 pos prev, forallb digit ds2 = true ->
+  search mr (ds2 ++ tailL) pos prev (length (ds2 ++ tailL))
+  = search mr tailL (pos + N.of_nat (length ds2)) (lastp ds2 prev) (length tailL).
+Proof.
+  intros Hf ds2. induction ds2 as [|d ds2' IH]; intros pos prev Hd2.
+  - cbn [app length lastp]. rewrite N.add_0_r. reflexivity.
+  - cbn [app]. rewrite search_skip1.
+    2:{ apply Hf. exists (d :: ds2'). split; [exact Hd2|reflexivity]. }
+    cbn [forallb] in Hd2. apply andb_true_iff in Hd2 as [Hd0 Hd2].
+    destruct (digit_facts d Hd0) as (_ & _ & _ & _ & _ & Ha). rewrite (ascii_width d Ha).
+    rewrite (IH (pos + 1) (Some d) Hd2). cbn [length lastp]. f_equal. lia.
+Qed.
+End Fails.
+
+(* the PRICE group needs a sign or a digit first *)
+Lemma price_rejects idx X : rejects (m_cat (m_group idx MPR) X) (fun c => negb (signf c) && negb (digf c)).
+Proof.
+  intros c t pos prev rem caps kk H. apply andb_true_iff in H as [H1 H2].
+  apply negb_true_iff in H1. apply negb_true_iff in H2.
+  unfold m_cat, m_group, MPR, m_cat. unfold m_rep at 1. cbn [Nat.sub m_exactly m_upto]. unfold m_eps.
+  unfold m_set at 1. cbn [ms_rest]. rewrite H1.
+  apply rep1_stops. exact H2.
+Qed.
+
+Lemma price_nil idx X pos prev rem caps kk : m_cat (m_group idx MPR) X (MS [] pos prev rem caps) kk = None.
+Proof. reflexivity. Qed.
+
+(* a regex PRICE . X fails everywhere on  digits ++ tail  when X fails after the digits and the tail has no
+   sign or digit *)
+Lemma price_search_none idx X tailL ds2 pos prev :
+  price_stop tailL -> mfails (dtail tailL) X ->
+  forallb digit ds2 = true -> forallb (fun c => negb (signf c) && negb (digf c)) tailL = true ->
+  forallb ascii tailL = true ->
+  search (m_cat (m_group idx MPR) X) (ds2 ++ tailL) pos prev (length (ds2 ++ tailL)) = None.
+Proof.
+  intros Hp HX Hd2 Ht Ha.
+  rewrite (search_dtail tailL _ (mfails_cat _ _ _ (dtail_price tailL idx Hp) HX) ds2 pos prev Hd2).
+  pose proof (search_skip_run _ _ (price_rejects idx X) tailL [] (pos + N.of_nat (length ds2)) (lastp ds2 prev) Ht Ha) as E.
+  rewrite app_nil_r in E. rewrite E. reflexivity.
+Qed.
+
+Section MoneyLine2.
+Local Open Scope N_scope.
+Variables (ds w : list N) (k : nat).
+Hypothesis Hne : ds <> [].
+Hypothesis Hd : forallb digit ds = true.
+Hypothesis Hw : forallb letter w = true.
+Hypothesis Hw2 : (2 <= length w)%nat.
+Local Notation tailL := (blanks k ++ w).
+Local Notation L := (ds ++ blanks k ++ w).
+
+Lemma tail_price_stop : price_stop tailL.
+Proof.
+  pose proof (tailL_head w k Hw Hw2) as H. unfold price_stop, stops. destruct tailL as [|h t]; [contradiction|]. tauto.
+Qed.
+
+Lemma tail_no_digit : forallb (fun c => negb (signf c) && negb (digf c)) tailL = true /\ forallb ascii tailL = true.
+Proof.
+  rewrite !forallb_app. unfold blanks. rewrite !forallb_repeat by reflexivity. cbn [andb].
+  clear Hw2. induction w as [|c w' IH]; [split; reflexivity|]. cbn [forallb] in *. apply andb_true_iff in Hw as [Hc Hw'].
+  destruct (letter_facts c Hc) as (_ & A & B & _ & _ & C). destruct (IH Hw') as (I1 & I2).
+  rewrite A, B, C, I1, I2. split; reflexivity.
+Qed.
+
+(* regex 4: PRICE NOTATION blank+ CURRENCY.  After the digits comes a blank (not a suffix letter), or the
+   first letter of the word, and then a letter where the blank should be *)
+Lemma R4_rest_fails Y :
+  mfails (dtail tailL) (m_cat (m_group 2 (m_set notf)) (m_cat (m_rep (m_set spf) 1 None true) Y)).
+Proof.
+  intros st kk (ds2 & Hd2 & Hr). destruct st as [rest pos prev rem caps]. cbn in Hr. subst rest.
+  unfold m_cat, m_group. unfold m_set at 1. cbn [ms_rest].
+  destruct ds2 as [|d ds2']; cbn [app].
+  - destruct k as [|k']; cbn [blanks repeat app].
+    + destruct (w_cons w Hw Hw2) as (a & b & w' & Ew). rewrite Ew. destruct (notf a); [|reflexivity].
+      cbn [ms_pos ms_prev ms_rem ms_caps]. apply rep1_stops. cbn [ms_rest stops].
+      rewrite Ew in Hw. cbn [forallb] in Hw. apply andb_true_iff in Hw as [_ Hb]. apply andb_true_iff in Hb as [Hb _].
+      exact (proj1 (proj2 (proj2 (proj2 (proj2 (letter_facts b Hb)))))).
+    + reflexivity.
+  - cbn [forallb] in Hd2. apply andb_true_iff in Hd2 as [Hd0 _]. rewrite (proj1 (digit_more d Hd0)). reflexivity.
+Qed.
+
+Theorem caps_R4 : caps_iter R4 L = [].
+Proof.
+  unfold caps_iter, captures_iter_p. rewrite R4_matcher. apply iter_none_any. unfold M4.
+  destruct tail_no_digit as (T1 & T2).
+  exact (price_search_none 1 _ tailL ds 0 None tail_price_stop (R4_rest_fails _) Hd T1 T2).
+Qed.
+
+(* regexes 1, 3, 5 need a currency symbol *)
+Definition AL : list N := range_list 48 57 ++ [32] ++ range_list 97 122 ++ range_list 65 90.
+
+Lemma AL_table : forallb (fun c => needs_out PT AL (cre_rx c)) [R1; R3; R5] = true.
+Proof. vm_compute. reflexivity. Qed.
+
+Lemma digit_AL c : digit c = true -> in_alpha AL c = true.
+Proof.
+  intros H. unfold digit in H. apply andb_true_iff in H as [H1 H2]. apply N.leb_le in H1. apply N.leb_le in H2.
+  apply in_alpha_In. unfold AL. apply in_or_app. left. apply range_list_In; assumption.
+Qed.
+Lemma letter_AL c : letter c = true -> in_alpha AL c = true.
+Proof.
+  intros H. unfold letter in H. apply in_alpha_In. unfold AL. apply in_or_app. right. apply in_or_app. right.
+  apply in_or_app. apply orb_true_iff in H as [H|H]; apply andb_true_iff in H as [H1 H2];
+    apply N.leb_le in H1; apply N.leb_le in H2; [left|right]; apply range_list_In; assumption.
+Qed.
+
+Lemma L_over : over AL L.
+Proof.
+  apply over_app. split.
+  - unfold over. rewrite forallb_forall in *. intros c Hc. apply digit_AL. exact (Hd c Hc).
+  - apply over_app. split; [apply over_repeat; reflexivity|].
+    unfold over. rewrite forallb_forall in *. intros c Hc. apply letter_AL. exact (Hw c Hc).
+Qed.
+
+Lemma caps_R135 : caps_iter R1 L = [] /\ caps_iter R3 L = [] /\ caps_iter R5 L = [].
+Proof.
+  pose proof AL_table as T. cbn [forallb] in T.
+  apply andb_true_iff in T as [T1 T]. apply andb_true_iff in T as [T3 T]. apply andb_true_iff in T as [T5 _].
+  repeat split; apply (needs_out_caps_iter AL); try assumption; exact L_over.
+Qed.
+End MoneyLine2.
+
+Section MoneyLexer.
+Context {G : Type} {NG : Num G}.
+Local Open Scope N_scope.
+Variable cfg : config G.
+Variables (ds w : list N) (k : nat) (x : G) (code : str).
+Hypothesis Hne : ds <> [].
+Hypothesis Hd : forallb digit ds = true.
+Hypothesis Hw : forallb letter w = true.
+Hypothesis Hw2 : (2 <= length w)%nat.
+Hypothesis Hx : read_decimal cfg ds = Some x.
+Hypothesis Hc : read_currency cfg w = Some code.
+Local Notation L := (ds ++ blanks k ++ w).
+Local Notation tot := (N.of_nat (length ds) + N.of_nat k + N.of_nat (length w)).
+
+Definition info_shape (t : token_info G) := (ti_start t, ti_end t, ti_ty t, ti_text t, ti_active t).
+Definition infos_shape (r : res (@Rules.tstate G)) :=
+  match r with Ok st => Some (map info_shape (ts_infos st)) | Panic _ => None end.
+
+Lemma slice_ds : slice L (0, N.of_nat (length ds)) = ds.
+Proof.
+  destruct (digits_all ds Hd) as (_ & Ha & _).
+  exact (slice_mid [] ds (blanks k ++ w) eq_refl Ha).
+Qed.
+
+Lemma slice_w : slice L (N.of_nat (length ds) + N.of_nat k, tot) = w.
+Proof.
+  destruct (digits_all ds Hd) as (_ & Ha & _). destruct (letters_all w Hw) as (_ & Hla).
+  pose proof (slice_mid (ds ++ blanks k) w [] ) as H.
+  rewrite app_length, blanks_length, Nat2N.inj_add, app_nil_r, <- app_assoc in H. apply H; [|exact Hla].
+  rewrite forallb_app, Ha. apply forallb_repeat. reflexivity.
+Qed.
+
+Theorem money_literal_parser :
+  infos_shape (over_regexes (money_body cfg L) L MONEY empty_state)
+  = Some [(0, tot, Some (TMoney x code), ds, true)].
+Proof.
+  rewrite MONEY_split. cbn [over_regexes].
+  destruct (caps_R135 ds w k Hd Hw) as (C1 & C3 & C5).
+  rewrite C1, (caps_R2 ds w k Hne Hd Hw Hw2), C3, (caps_R4 ds w k Hd Hw Hw2), C5.
+  cbn [over_captures bind].
+  destruct (money_body_token cfg L R2 [Some (0, tot); Some (0, N.of_nat (length ds)); Some (N.of_nat (length ds) + N.of_nat k, tot)]
+              empty_state (0, N.of_nat (length ds)) x (N.of_nat (length ds) + N.of_nat k, tot) code 0 tot)
+    as (st' & E & Hok & _).
+  - reflexivity.
+  - rewrite slice_ds. exact Hx.
+  - reflexivity.
+  - rewrite slice_w. exact Hc.
+  - reflexivity.
+  - rewrite E. cbn [bind infos_shape].
+    rewrite (Hok eq_refl). cbn [ts_infos empty_state app map info_shape ti_start ti_end ti_ty ti_text ti_active snd].
+    rewrite slice_ds. reflexivity.
+Qed.
+End MoneyLexer.
+
+Theorem money_regexes_on_literal : forall (ds w : str) (k : nat),
+  ds <> [] -> forallb digit ds = true -> forallb letter w = true -> (2 <= length w)%nat ->
+  let n := N.of_nat (length ds) in
+  let pw := (n + N.of_nat k)%N in
+  let tot := (pw + N.of_nat (length w))%N in
+  MONEY = [R1; R2; R3; R4; R5] /\
+  caps_iter R2 (ds ++ blanks k ++ w) = [[Some (0%N, tot); Some (0%N, n); Some (pw, tot)]] /\
+  caps_iter R1 (ds ++ blanks k ++ w) = [] /\ caps_iter R3 (ds ++ blanks k ++ w) = [] /\
+  caps_iter R4 (ds ++ blanks k ++ w) = [] /\ caps_iter R5 (ds ++ blanks k ++ w) = [].
+Proof.
+  intros ds w k Hne Hd Hw Hw2 n pw tot.
+  destruct (caps_R135 ds w k Hd Hw) as (C1 & C3 & C5).
+  repeat split; try assumption.
+  - exact (caps_R2 ds w k Hne Hd Hw Hw2).
+  - exact (caps_R4 ds w k Hd Hw Hw2).
+Qed.
+
+(* ---- the regenerated tables: every currency code, written in lower or upper case (any mix for a rated one) ---- *)
+Definition word_ok (v : str) : bool := forallb letter v && (2 <=? length v)%nat.
+
+Lemma codes_are_words :
+  forallb (fun c => word_ok (to_lowercase c) && word_ok (to_uppercase c)) (table_codes default_config) = true.
+Proof. vm_compute. reflexivity. Qed.
+
+Theorem money_literal_any_case : forall (ds : str) (k : nat) (name A : str) (x : float),
+  ds <> [] -> forallb digit ds = true ->
+  forallb letter name = true -> (2 <= length name)%nat ->
+  In A (table_codes default_config) -> to_lowercase name = to_lowercase A ->
+  read_decimal default_config ds = Some x ->
+  infos_shape (over_regexes (money_body default_config (ds ++ blanks k ++ name)) (ds ++ blanks k ++ name) MONEY empty_state)
+  = Some [(0%N, (N.of_nat (length ds) + N.of_nat k + N.of_nat (length name))%N, Some (TMoney x A), ds, true)].
+Proof.
+  intros ds k name A x Hne Hd Hl H2 HA Hn Hx.
+  apply money_literal_parser; try assumption.
+  apply code_found_any_case; assumption.
+Qed.
+
+Theorem money_literal_codes : forall (ds : str) (k : nat) (A : str) (x : float),
+  ds <> [] -> forallb digit ds = true -> In A (table_codes default_config) ->
+  read_decimal default_config ds = Some x ->
+  forall name, name = to_lowercase A \/ name = to_uppercase A ->
+  infos_shape (over_regexes (money_body default_config (ds ++ blanks k ++ name)) (ds ++ blanks k ++ name) MONEY empty_state)
+  = Some [(0%N, (N.of_nat (length ds) + N.of_nat k + N.of_nat (length name))%N, Some (TMoney x A), ds, true)].
+Proof.
+  intros ds k A x Hne Hd HA Hx name Hn.
+  pose proof (proj1 (forallb_forall _ _) codes_are_words A HA) as Hw.
+  apply andb_true_iff in Hw as [Hlo Hup].
+  destruct (code_found_lower_upper A HA) as (Rlo & Rup & _).
+  destruct Hn as [-> | ->].
+  - unfold word_ok in Hlo. apply andb_true_iff in Hlo as [L1 L2]. apply Nat.leb_le in L2.
+    apply money_literal_parser; assumption.
+  - unfold word_ok in Hup. apply andb_true_iff in Hup as [L1 L2]. apply Nat.leb_le in L2.
+    apply money_literal_parser; assumption.
+Qed.
+
+Theorem money_literal_nonvacuous :
+  read_decimal default_config (s "250") = Some 250%float /\ forallb digit (s "0123456789") = true /\
+  mem_str (s "USD") (table_codes default_config) = true /\ word_ok (s "usd") = true /\
+  length (table_codes default_config) = length (cf_currency default_config).
+Proof. vm_compute. repeat split; reflexivity. Qed.
+
+(* ---- the symbol-before form  `sym digits`  ---- *)
+Section SymbolLine.
+Local Open Scope N_scope.
+Variables (c wc : N) (ds : list N).
+Hypothesis Hcur : curf c = true.
+Hypothesis Hsg : signf c = false.
+Hypothesis Hdg : digf c = false.
+Hypothesis Hwc : utf8_width c = wc.
+Hypothesis Hwc' : utf8_w c = wc.
+Hypothesis Hwc0 : wc <> 0.
+Hypothesis Hne : ds <> [].
+Hypothesis Hd : forallb digit ds = true.
+Local Notation e := (wc + N.of_nat (length ds)).
+Local Notation LS := (c :: ds).
+
+Lemma M1_hit :
+  M1 (MS LS 0 None (length LS) []) k_done
+  = Some (MS [] e (lastp ds (Some c)) (Nat.pred (length LS) - length ds)%nat [(3%nat, (e, e)); (2%nat, (wc, e)); (1%nat, (0, wc))]).
+Proof.
+  destruct (digits_all ds Hd) as (Hdf & Ha & _ & _).
+  unfold M1, m_cat. unfold m_group at 1. unfold m_set at 1. cbn [ms_rest ms_pos ms_prev ms_rem ms_caps]. rewrite Hcur.
+  rewrite Hwc, N.add_0_l. unfold m_group at 1. cbn [ms_pos]. unfold MPR, m_cat.
+  assert (Hs : forall st kk, ms_rest st = ds -> m_rep (m_set signf) 0 (Some 1%nat) true st kk = kk st).
+  { intros st kk Hr. unfold m_rep. cbn [Nat.sub m_exactly m_upto]. unfold m_eps, m_set. rewrite Hr.
+    clear - Hne Hd. destruct ds as [|d ds']; [congruence|]. cbn [forallb] in Hd. apply andb_true_iff in Hd as [Hd0 _].
+    destruct (digit_facts d Hd0) as (_ & S0 & _). rewrite S0. reflexivity. }
+  rewrite Hs by reflexivity.
+  replace ds with (ds ++ []) at 1 by apply app_nil_r.
+  apply rep1_run; try assumption.
+  { exact Logic.I. }
+  { cbn [length]. lia. }
+  rewrite (advst_eq ds [] wc (Some c) _ _ Ha).
+  rewrite rep0_none by exact Logic.I. cbv beta. cbn [ms_rest ms_pos ms_prev ms_rem ms_caps].
+  unfold m_group. cbn [ms_pos]. unfold m_rep. cbn [Nat.sub m_exactly m_upto]. unfold m_eps, m_set. cbn [ms_rest].
+  unfold k_done. reflexivity.
+Qed.
+
+Theorem caps_R1_sym : caps_iter R1 LS = [[Some (0, e); Some (0, wc); Some (wc, e); Some (e, e)]].
+Proof.
+  unfold caps_iter, captures_iter_p. rewrite R1_matcher. change (cre_n R1) with 3%nat.
+  rewrite (iter_hit M1 3 _ _ _ _ _ _ _ _ (search_hit _ _ _ _ _ _ M1_hit)).
+  2:{ cbn [ms_pos]. lia. }
+  cbn [ms_rest ms_pos ms_prev ms_rem]. unfold render_caps. cbn [ms_pos ms_caps seq map lookup_cap Nat.eqb].
+  reflexivity.
+Qed.
+
+(* regex 3 (PRICE blanks SYMBOL): after the digits nothing follows *)
+Theorem caps_R3_sym : caps_iter R3 LS = [].
+Proof.
+  unfold caps_iter, captures_iter_p. rewrite R3_matcher. apply iter_none_any. unfold M3.
+  rewrite search_skip1.
+  2:{ apply price_rejects. rewrite Hsg, Hdg. reflexivity. }
+  pose proof (price_search_none 1 (m_cat (m_rep (m_set spf) 0 None true) (m_group 2 (m_set curf))) [] ds
+                (0 + utf8_width c) (Some c)) as H.
+  rewrite app_nil_r in H. apply H.
+  - repeat split.
+  - apply mfails_cat.
+    + apply keeps_rep, dtail_set_keeps. exact Logic.I.
+    + apply mfails_group, dtail_set_fails; [exact Logic.I|]. intros d Hd0. exact (proj2 (proj2 (digit_more d Hd0))).
+  - exact Hd.
+  - reflexivity.
+  - reflexivity.
+Qed.
+End SymbolLine.
+
+Definition sym_ok (c : N) : bool :=
+  curf c && negb (signf c) && negb (digf c) && N.eqb (utf8_width c) (utf8_w c) && negb (N.eqb (utf8_width c) 0)
+  && forallb (fun r => needs_out PT (c :: range_list 48 57) (cre_rx r)) [R2; R4; R5].
+
+Section SymbolLexer.
+Context {G : Type} {NG : Num G}.
+Local Open Scope N_scope.
+Variable cfg : config G.
+Variables (c : N) (ds : list N) (x : G) (code : str).
+Hypothesis Hc : sym_ok c = true.
+Hypothesis Hne : ds <> [].
+Hypothesis Hd : forallb digit ds = true.
+Hypothesis Hx : read_decimal cfg ds = Some x.
+Hypothesis Hr : read_currency cfg [c] = Some code.
+Local Notation wc := (utf8_width c).
+Local Notation e := (utf8_width c + N.of_nat (length ds)).
+
+Lemma sym_facts : curf c = true /\ signf c = false /\ digf c = false /\ utf8_w c = wc /\ wc <> 0 /\
+  needs_out PT (c :: range_list 48 57) (cre_rx R2) = true /\
+  needs_out PT (c :: range_list 48 57) (cre_rx R4) = true /\
+  needs_out PT (c :: range_list 48 57) (cre_rx R5) = true.
+Proof.
+  unfold sym_ok in Hc.
+  apply andb_true_iff in Hc as [Hc H6]. apply andb_true_iff in Hc as [Hc H5]. apply andb_true_iff in Hc as [Hc H4].
+  apply andb_true_iff in Hc as [Hc H3]. apply andb_true_iff in Hc as [H1 H2].
+  cbn [forallb] in H6. apply andb_true_iff in H6 as [N2 H6]. apply andb_true_iff in H6 as [N4 H6].
+  apply andb_true_iff in H6 as [N5 _].
+  apply negb_true_iff in H2. apply negb_true_iff in H3. apply negb_true_iff in H5.
+  apply N.eqb_eq in H4. apply N.eqb_neq in H5.
+  repeat split; auto.
+Qed.
+
+Lemma sym_line_over : over (c :: range_list 48 57) (c :: ds).
+Proof.
+  apply over_cons. split.
+  - unfold in_alpha. cbn [existsb]. rewrite N.eqb_refl. reflexivity.
+  - unfold over. rewrite forallb_forall in *. intros d Hin. specialize (Hd d Hin).
+    unfold digit in Hd. apply andb_true_iff in Hd as [H1 H2]. apply N.leb_le in H1. apply N.leb_le in H2.
+    apply in_alpha_In. right. apply range_list_In; assumption.
+Qed.
+
+Lemma take0 (l : list N) : take_bytes l 0 = [].
+Proof. destruct l; reflexivity. Qed.
+
+Lemma slice_sym : slice (c :: ds) (0, wc) = [c] /\ slice (c :: ds) (wc, e) = ds /\ slice (c :: ds) (e, e) = [].
+Proof.
+  destruct sym_facts as (_ & _ & _ & Hw & Hw0 & _).
+  destruct (digits_all ds Hd) as (_ & Ha & _).
+  apply N.eqb_neq in Hw0.
+  unfold slice. cbn [fst snd]. repeat split.
+  - cbn [drop_bytes N.eqb]. rewrite N.sub_0_r. cbn [take_bytes]. rewrite Hw0, Hw, N.sub_diag, take0. reflexivity.
+  - cbn [drop_bytes]. rewrite Hw0, Hw, N.sub_diag.
+    replace (drop_bytes ds 0) with ds by (destruct ds; reflexivity).
+    replace (wc + N.of_nat (length ds) - wc) with (N.of_nat (length ds)) by lia.
+    pose proof (take_ascii ds [] Ha) as T. rewrite app_nil_r in T. exact T.
+  - rewrite N.sub_diag. apply take0.
+Qed.
+
+Theorem money_symbol_parser :
+  infos_shape (over_regexes (money_body cfg (c :: ds)) (c :: ds) MONEY empty_state)
+  = Some [(0, e, Some (TMoney (fmul x f1) code), ds, true)].
+Proof.
+  destruct sym_facts as (F1 & F2 & F3 & F4 & F5 & N2 & N4 & N5).
+  destruct slice_sym as (S1 & S2 & S3).
+  rewrite MONEY_split. cbn [over_regexes].
+  rewrite (caps_R1_sym c wc ds F1 eq_refl F4 F5 Hne Hd), (caps_R3_sym c ds F2 F3 Hd).
+  rewrite (needs_out_caps_iter _ R2 _ N2 sym_line_over), (needs_out_caps_iter _ R4 _ N4 sym_line_over),
+          (needs_out_caps_iter _ R5 _ N5 sym_line_over).
+  cbn [over_captures bind].
+  destruct (money_body_token cfg (c :: ds) R1 [Some (0, e); Some (0, wc); Some (wc, e); Some (e, e)]
+              empty_state (wc, e) x (0, wc) code 0 e) as (st' & E & Hok & _).
+  - reflexivity.
+  - rewrite S2. exact Hx.
+  - reflexivity.
+  - rewrite S1. exact Hr.
+  - reflexivity.
+  - rewrite E. cbn [bind infos_shape].
+    rewrite (Hok eq_refl).
+    change (cap_name R1 [Some (0, e); Some (0, wc); Some (wc, e); Some (e, e)] "NOTATION") with (Some (e, e)).
+    cbn [ts_infos empty_state app map info_shape ti_start ti_end ti_ty ti_text ti_active snd].
+    rewrite S2, S3. reflexivity.
+Qed.
+End SymbolLexer.
+
+(* the one-character currency-symbol keys of the alias table *)
+Definition alias_symbols {G} (cfg : config G) : list N :=
+  flat_map (fun kv : str * str => match fst kv with [c] => if curf c then [c] else [] | _ => [] end) (cf_currency_alias cfg).
+
+Lemma alias_symbols_ok :
+  forallb (fun c => sym_ok c && found_as default_config [c] (match read_currency default_config [c] with Some a => a | None => [] end)
+                    && match read_currency default_config [c] with Some a => assoc_mem a (cf_rates default_config) | None => false end)
+          (alias_symbols default_config) = true.
+Proof. vm_compute. reflexivity. Qed.
+
+Theorem money_symbol_table : forall (c : N) (ds : str) (x : float),
+  In c (alias_symbols default_config) -> ds <> [] -> forallb digit ds = true ->
+  read_decimal default_config ds = Some x ->
+  exists A, read_currency default_config [c] = Some A /\ rate_of default_config A <> None /\
+    infos_shape (over_regexes (money_body default_config (c :: ds)) (c :: ds) MONEY empty_state)
+    = Some [(0%N, (utf8_width c + N.of_nat (length ds))%N, Some (TMoney (fmul x f1) A), ds, true)].
+Proof.
+  intros c ds x Hin Hne Hd Hx.
+  pose proof (proj1 (forallb_forall _ _) alias_symbols_ok c Hin) as H.
+  apply andb_true_iff in H as [H H3]. apply andb_true_iff in H as [H1 H2].
+  destruct (read_currency default_config [c]) as [A|] eqn:E; [|discriminate].
+  exists A. split; [reflexivity|]. split.
+  - unfold rate_of. unfold assoc_mem in H3. destruct (assoc A (cf_rates default_config)); [discriminate|discriminate].
+  - apply money_symbol_parser; assumption.
+Qed.
+
+Theorem money_symbol_nonvacuous :
+  alias_symbols default_config <> [] /\ mem_str [36%N] (map (fun c => [c]) (alias_symbols default_config)) = true.
+Proof. vm_compute. split; [discriminate|reflexivity]. Qed.
